@@ -272,7 +272,9 @@ class C10Engine(Engine):
             wu.start()
             for i, st in enumerate(spec["steps"][:target + 1]):
                 S.exec_step(wu, st, i)
-            S.exec_step(wu, {"op": "restart", "how": "clean"}, target)
+            # "as if no crash had happened": the server object is kept; the clients drop and
+            # the periodic timer is re-started so that both worlds share the sweep phase
+            S.exec_step(wu, {"op": "bounce"}, target)
             fu, eu = self.run_cont(wu, cont, BASE)
             final_u = wu.history[-1].post
             facts["events"] += len(wu.history)
